@@ -3,6 +3,7 @@ use serde_json::Value;
 use crate::engine::{CaseResult, Ctx};
 
 pub mod c01;
+pub mod c02;
 pub mod c03;
 pub mod c04;
 pub mod c05;
@@ -22,11 +23,12 @@ pub mod c18;
 pub mod c19;
 pub mod c20;
 
-pub const ALL: &[&str] = &["C01", "C03", "C04", "C05", "C06", "C07", "C08", "C09", "C10", "C11", "C12", "C13", "C14", "C15", "C16", "C17", "C18", "C19", "C20"];
+pub const ALL: &[&str] = &["C01", "C02", "C03", "C04", "C05", "C06", "C07", "C08", "C09", "C10", "C11", "C12", "C13", "C14", "C15", "C16", "C17", "C18", "C19", "C20"];
 
 pub fn run(c: &Ctx) -> bool {
     match c.prop.as_str() {
         "C01" => c01::run(c),
+        "C02" => c02::run(c),
         "C03" => c03::run(c),
         "C04" => c04::run(c),
         "C05" => c05::run(c),
@@ -53,6 +55,7 @@ pub fn run(c: &Ctx) -> bool {
 pub fn replay(prop: &str, kind: &str, case: &Value) -> Option<CaseResult> {
     match prop {
         "C01" => c01::replay(kind, case),
+        "C02" => c02::replay(kind, case),
         "C03" => c03::replay(kind, case),
         "C04" => c04::replay(kind, case),
         "C05" => c05::replay(kind, case),
